@@ -18,3 +18,6 @@ for feats, profile in (((), "release"), (("raw_strains",), "release"), (("sync",
         print(log); sys.exit(1)
     print("setup ok:", b)
 PY
+# prime Miri's sysroot and the interpreter build of the crate (C11's supporting run); not fatal here,
+# the check itself reports a failing run
+( cd miri && CARGO_TARGET_DIR=../.cache/target-miri timeout 1500 cargo +nightly miri run --offline >/dev/null 2>&1 && echo "setup ok: miri" ) || echo "setup note: miri priming did not finish"
